@@ -21,7 +21,7 @@ func init() {
 		Rule: "one evaluation = a fresh server whose Run is started while 1..8 pollers spin on Ready(); the first poller iteration that observes true immediately dials the address and performs a verified bind, and " +
 			"keeps dialing at PRNG-chosen later instants until Stop is called. Addresses cover IPv4, hostname, bracketed and unbracketed IPv6 loopback and the empty-host form. Failing addresses (empty, no port, IP literals of the documentation ranges that are not assigned to the host, " +
 			"bracket errors, invalid IPv4, unresolvable host, a port the harness keeps bound, a port served by another running gldap server, and a TLS configuration without certificates) must make Run return an error while Ready() - polled during the call and for a while after - never reports true. " +
-			"Between Ready and Stop the harness also lets Accept fail temporarily (descriptor shortage), calls Run once more on the running server with an address that lacks a port (that call fails; the running server goes on), runs a stopped server again on a port somebody else took meanwhile, stops another server that shares the mux (and starts a new one on that mux), keeps 300/520/1100 idle connections open and parks silent peers on a TLS listener: a new connection must still be served within 10s afterwards / meanwhile. Runs under GOMAXPROCS 1, 4 and 16. A refused dial after an observed true is a logical fact, not a timing judgement. " +
+			"Between Ready and Stop the harness also lets Accept fail temporarily (descriptor shortage), calls Run once more on the running server with an address that lacks a port (that call fails; the running server goes on), stops a server, lets a new server take over its address and stops the old server value once more, runs a stopped server again on a port somebody else took meanwhile, stops another server that shares the mux (and starts a new one on that mux), keeps 300/520/1100 idle connections open and parks silent peers on a TLS listener: a new connection must still be served within 10s afterwards / meanwhile. Runs under GOMAXPROCS 1, 4 and 16. A refused dial after an observed true is a logical fact, not a timing judgement. " +
 			"distinct_nontrivial = distinct (address form, #pollers, GOMAXPROCS, whether a poller saw false before true) combinations",
 		Assume: []string{"the address is dialled exactly as it was passed to Run (for the empty-host form, 127.0.0.1)"},
 		Phases: func(tier string, seed int64) []Phase {
@@ -31,7 +31,7 @@ func init() {
 			}
 			return ps
 		},
-		MinObserved: []string{"startups", "dials_after_ready_true", "failing_addresses_checked", "pollers_saw_false_before_true", "served_after_accept_failure_episodes", "served_after_a_further_run_with_a_malformed_address_had_failed", "served_next_to_silent_tls_peers", "served_while_an_onclose_callback_runs", "served_after_idling_longer_than_the_read_timeout", "served_by_a_second_run_after_a_failed_one", "served_next_to_hundreds_of_idle_connections", "served_after_another_server_on_the_same_mux_was_stopped", "second_runs_of_a_stopped_server_on_a_port_taken_meanwhile"},
+		MinObserved: []string{"startups", "dials_after_ready_true", "failing_addresses_checked", "pollers_saw_false_before_true", "served_after_accept_failure_episodes", "served_after_the_previous_owner_of_the_address_was_stopped_again", "served_after_a_further_run_with_a_malformed_address_had_failed", "served_next_to_silent_tls_peers", "served_while_an_onclose_callback_runs", "served_after_idling_longer_than_the_read_timeout", "served_by_a_second_run_after_a_failed_one", "served_next_to_hundreds_of_idle_connections", "served_after_another_server_on_the_same_mux_was_stopped", "second_runs_of_a_stopped_server_on_a_port_taken_meanwhile"},
 	})
 }
 
@@ -394,6 +394,37 @@ func c17Disturbances(c *Ctx) {
 				c.Inconclusive(fmt.Sprintf("Run(%q) on a running server did not return", bad))
 			}
 			rs.StopWithin(patience)
+		}
+
+		// a server is stopped, a NEW server takes over its address, and then the old server value is stopped once more
+		// (an explicit Stop plus a deferred one): that is nothing to the new server
+		if oldS, err := startSrv(SrvCfg{}, bindOK); err == nil {
+			addr := oldS.Addr
+			if err := c17Served(addr, nil, bound); err != nil {
+				c.Inconclusive("takeover, old server: " + err.Error())
+			}
+			oldS.StopWithin(patience)
+			if newS, err := startSrv(SrvCfg{Addr: addr}, bindOK); err == nil {
+				if err := c17Served(newS.Addr, nil, bound); err != nil {
+					c.Inconclusive("takeover, new server: " + err.Error())
+				} else {
+					for k := 0; k <= ep%2; k++ {
+						oldS.S.Stop()
+					}
+					time.Sleep(time.Duration(ep%3) * time.Millisecond)
+					if newS.S.Ready() {
+						if err := c17Served(newS.Addr, nil, bound); err != nil {
+							c.Violate("Ready() was true but a connection attempt failed or was not served", fmt.Sprintf("a new server runs on the address of a stopped one; after the OLD server value was stopped once more the new server's Ready() is true and its Stop was not called, yet no new connection is served within %s: %v", bound, err), map[string]any{"episode": ep})
+						} else {
+							c.Count("dials_after_ready_true", 1)
+						}
+					}
+					c.Count("served_after_the_previous_owner_of_the_address_was_stopped_again", 1)
+				}
+				newS.StopWithin(patience)
+			} else {
+				c.Count("harness_port_races_skipped", 1)
+			}
 		}
 
 		// two servers of one application share one mux (an ldap and an ldaps listener, or a restart on the same routes):
